@@ -383,8 +383,11 @@ ADJ = {"a": r"a^\dagger", r"a^\dagger": "a", "sigma_+": "sigma_-", "sigma_-": "s
 def adjoint_siteop(gm, so):
     """Site operator from the catalogue whose matrix is the adjoint of so.mat (None if absent)."""
     target = so.mat.conj().T
+    if not np.any(target):
+        return None          # a vanishing product such as "sigma_+ sigma_+": its "adjoint" (and its charge) is ambiguous
     for cand in gm.catalog[so.site]:
-        if cand.mat.shape == target.shape and np.allclose(cand.mat, target, atol=1e-13):
+        if (cand.mat.shape == target.shape and np.allclose(cand.mat, target, atol=1e-13)
+                and np.array_equal(cand.charge, -so.charge)):
             return cand
     return None
 
